@@ -26,7 +26,7 @@ def reportLines (st : St) : List String :=
     | none => []
     | some db =>
       let ts := (st.tables.find? (·.1 == n)).map (·.2) |>.getD []
-      (Db.tableLines db ts).2.map fun l => s!"db {hexOrDash n.toUTF8.toList} {l}"
+      ((Db.tableLines db ts).2.filter fun l => !l.startsWith "counter ").map fun l => s!"db {hexOrDash n.toUTF8.toList} {l}"
   [dbsLine] ++ tl ++ ["end"]
 
 def stepLine (st : St) (line : String) : St × List String :=
